@@ -89,6 +89,13 @@ fn positions() -> &'static Vec<Pos> {
             Pos { name: "RegisteredLabelWithPrivate<CwtClaimName>", build: |n, _m| n, recode: recode!(RegisteredLabelWithPrivate<iana::CwtClaimName>), accepts: |i| m_reg_label_private(crate::registry::CWT_CLAIM_NAME, i).is_ok(), unsigned: false, uninterpreted: false },
             Pos { name: "RegisteredLabelWithPrivate<HeaderParameter>", build: |n, _m| n, recode: recode!(RegisteredLabelWithPrivate<iana::HeaderParameter>), accepts: |i| m_reg_label_private(crate::registry::HEADER_PARAMETER, i).is_ok(), unsigned: false, uninterpreted: false },
             Pos { name: "RegisteredLabelWithPrivate<EllipticCurve>", build: |n, _m| n, recode: recode!(RegisteredLabelWithPrivate<iana::EllipticCurve>), accepts: |i| m_reg_label_private(crate::registry::ELLIPTIC_CURVE, i).is_ok(), unsigned: false, uninterpreted: false },
+            // interpreting positions inside nested structures
+            Pos { name: "countersig-array-unprotected-alg", build: |n, _m| map1(Item::Int(7), Item::Array(vec![Item::Array(vec![Item::Bytes(vec![]), Item::Map(vec![]), Item::Bytes(vec![1])]), Item::Array(vec![Item::Bytes(vec![]), map1(Item::Int(1), n), Item::Bytes(vec![2])])])), recode: recode!(Header), accepts: |i| m_header(i, &mut MCtx::default()).is_ok(), unsigned: false, uninterpreted: false },
+            Pos { name: "countersig-single-label", build: |n, _m| map1(Item::Int(7), Item::Array(vec![Item::Bytes(vec![]), map1(n, Item::Null), Item::Bytes(vec![1])])), recode: recode!(Header), accepts: |i| m_header(i, &mut MCtx::default()).is_ok(), unsigned: false, uninterpreted: false },
+            Pos { name: "countersig-array-crit-entry", build: |n, _m| map1(Item::Int(7), Item::Array(vec![Item::Array(vec![Item::Bytes(vec![]), map1(Item::Int(2), Item::Array(vec![n])), Item::Bytes(vec![1])]), Item::Array(vec![Item::Bytes(vec![]), Item::Map(vec![]), Item::Bytes(vec![2])])])), recode: recode!(Header), accepts: |i| m_header(i, &mut MCtx::default()).is_ok(), unsigned: false, uninterpreted: false },
+            Pos { name: "nested-recipient-alg", build: |n, _m| Item::Array(vec![Item::Bytes(vec![]), Item::Map(vec![]), Item::Null, Item::Array(vec![Item::Array(vec![Item::Bytes(vec![]), Item::Map(vec![]), Item::Null, Item::Array(vec![Item::Array(vec![Item::Bytes(vec![]), map1(Item::Int(1), n), Item::Null])])])])]), recode: recode!(coset::CoseEncrypt), accepts: |i| m_msg(Kind::Encrypt, i, &mut MCtx::default()).is_ok(), unsigned: false, uninterpreted: false },
+            Pos { name: "keyset-second-key-kty", build: |n, _m| Item::Array(vec![map1(Item::Int(1), Item::Int(1)), map1(Item::Int(1), n)]), recode: recode!(coset::CoseKeySet), accepts: |i| m_keyset(i).is_ok(), unsigned: false, uninterpreted: false },
+            Pos { name: "mac-recipient-label", build: |n, _m| Item::Array(vec![Item::Bytes(vec![]), Item::Map(vec![]), Item::Null, Item::Bytes(vec![]), Item::Array(vec![Item::Array(vec![Item::Bytes(vec![]), map1(n, Item::Null), Item::Null])])]), recode: recode!(coset::CoseMac), accepts: |i| m_msg(Kind::Mac, i, &mut MCtx::default()).is_ok(), unsigned: false, uninterpreted: false },
             // two adjacent integers as labels of one map (n and its neighbour): both must be decoded exactly
             Pos { name: "header-label-pair", build: |n, m| { Item::Map(vec![(n, Item::Null), (m, Item::Null)]) }, recode: recode!(Header), accepts: |i| m_header(i, &mut MCtx::default()).is_ok(), unsigned: false, uninterpreted: false },
             Pos { name: "key-label-pair", build: |n, m| { Item::Map(vec![(Item::Int(1), Item::Int(1)), (n, Item::Null), (m, Item::Null)]) }, recode: recode!(CoseKey), accepts: |i| m_key(i).is_ok(), unsigned: false, uninterpreted: false },
@@ -306,7 +313,7 @@ pub fn property() -> Property {
     Property {
         id: "C15",
         title: "Integers are decoded exactly or rejected as out of range, never wrapped",
-        rule: "integer n x interpreting position (27 positions: labels, alg, kty, content type, crit / key_ops entries, claim keys, nonces, timestamps, key data length, registry labels, and uninterpreted extra values) \
+        rule: "integer n x interpreting position (37 positions (incl. positions inside counter-signature arrays, nested recipients, key sets, and pairs of adjacent integers in one map): labels, alg, kty, content type, crit / key_ops entries, claim keys, nonces, timestamps, key data length, registry labels, and uninterpreted extra values) \
                x head width (every legal width and the bignum form); exhaustive over the boundary lattice (c-3..c+3 around 0, 23/24, 2^8, 2^16, 2^31, 2^32, 2^63, 2^64 of both signs), random elsewhere in [-2^64, 2^64-1]; \
                non-trivial = |n| >= 2^31 or n on the lattice; distinct by (position, n, width)",
         assumptions: &["oracle: out-of-range => the out-of-range error; in range => accepted iff the reference model accepts, and the re-encoding read by the strict reader holds exactly n"],
